@@ -154,11 +154,15 @@ def project_links(db) -> Dict[str, Any]:
     L['sqlrefs'] = [_safe(lambda t=t: refpos(get_references_for_sql(t)), [-1]) for t in T]
     L['colrefs'] = [[_safe(lambda c=c: refpos(c.get_refs()), [-1]) for c in t.columns] for t in T]
     L['cdb'] = [[c.database is db for c in t.columns] for t in T]
+    # iteration and positional access of the other containers
+    L['eiter'] = [_safe(lambda e=e: [x is y for x, y in zip(list(e), e.items)] == [True] * len(e.items) and all(e[i] is e.items[i] for i in range(len(e.items))), False) for e in db.enums]
+    L['giter'] = [_safe(lambda g=g: [x is y for x, y in zip(list(g), g.items)] == [True] * len(g.items) and all(g[i] is g.items[i] for i in range(len(g.items))), False) for g in db.table_groups]
+    L['titer'] = [_safe(lambda t=t: [x is y for x, y in zip(list(t), t.columns)] == [True] * len(t.columns), False) for t in T]
     return L
 
 
 EMPTY_LINKS = {k: [] for k in ('tdb', 'cown', 'cnote', 'tnote', 'iown', 'inote', 'edb', 'enote', 'gdb', 'gnote',
-                               'rdb', 'ndb', 'iter', 'pos', 'full', 'alias', 'getrefs', 'sqlrefs', 'colrefs', 'cdb')}
+                               'rdb', 'ndb', 'iter', 'pos', 'full', 'alias', 'getrefs', 'sqlrefs', 'colrefs', 'cdb', 'eiter', 'giter', 'titer')}
 EMPTY_LINKS.update({'pdb': True, 'pnote': True})
 
 
